@@ -226,7 +226,9 @@ fn serve(mut s: TcpStream, st: Arc<BackendState>) {
             // a request without body leaves the connection reusable; after an early answer to a request whose
             // body may still be in flight the connection is closed
             if st.big.lock().unwrap().contains(key) {
-                let mut r = format!("HTTP/1.1 200 OK\r\nContent-Length: {BIG_BODY}\r\n\r\n").into_bytes();
+                // as below: a request without body leaves the connection reusable, the others announce the close
+                let close = if head.starts_with("GET ") { "" } else { "Connection: close\r\n" };
+                let mut r = format!("HTTP/1.1 200 OK\r\nContent-Length: {BIG_BODY}\r\n{close}\r\n").into_bytes();
                 r.extend(std::iter::repeat_n(b'x', BIG_BODY));
                 if s.write_all(&r).is_err() { return; }
                 if head.starts_with("GET ") { continue; }
